@@ -5,7 +5,7 @@ Tie: yield_tree / print_tree / hyield_tree / hprint_tree (exact text), tree_to_d
 through print -> parse), plus a *test* of the Lean horizontal decoder on the model's own output.
 Oracle: model-free decoding of the real output with plain Python."""
 from __future__ import annotations
-import io, itertools, random, re
+import io, itertools, random, re, zlib
 import core
 from core import hx
 from runner import Case
@@ -244,6 +244,16 @@ def _style_arg(d):
         return (BaseHPrintStyle if hor else BasePrintStyle)(*st)
     if form == "kwobj":     # the style object built by KEYWORD (the documented field names), not by position
         from bigtree.utils.constants import BasePrintStyle, BaseHPrintStyle
+        if zlib.crc32(repr(st).encode()) % 2:
+            # a style object that was made for OTHER icons (one character narrower) and re-used: its fields are
+            # assigned afterwards (the classes are plain dataclasses); what counts is what it holds when it is passed
+            if hor:
+                o = BaseHPrintStyle(*[x[:-1] if len(x) > 1 else x + x for x in st])
+                (o.first_child, o.subsequent_child, o.split_branch, o.middle_child, o.last_child, o.stem, o.branch) = st
+            else:
+                o = BasePrintStyle(*[x[:-1] if len(x) > 1 else x + x for x in st])
+                o.stem, o.branch, o.stem_final = st
+            return o
         if hor:
             return BaseHPrintStyle(first_child=st[0], subsequent_child=st[1], split_branch=st[2], middle_child=st[3],
                                    last_child=st[4], stem=st[5], branch=st[6])
